@@ -140,7 +140,7 @@ Section C39.
   Lemma added_only_if_valid st b sroot ex st' :
     wf st -> receive_block mroot txroot bk_addr io st b sroot ex = (st', Added) ->
     ~ header_defect st (b_hdr b) /\ ~ content_defect b /\ ~ state_defect b sroot ex /\
-    hd_prev (b_hdr b) = cur_hash st /\ wf st'.
+    hd_prev (b_hdr b) = cur_hash st /\ (cache_clear_of st b -> wf st').
   Proof.
     intros Hwf E.
     destruct (receive_block_committed _ _ _ _ _ _ _ _ _ _ E (or_introl eq_refl)) as [[Hnd Htr] Hp].
@@ -150,7 +150,31 @@ Section C39.
     - destruct Hp as (_ & _ & _ & Hsr & _). exact (passed_no_state_defect _ _ _ Hsr).
     - exact (passed_add_prev_is_tip _ _ _ _ _ _ Hwf Hp).
     - unfold receive_block in E. destruct (decode_checks txroot b); [discriminate|].
-      apply (add_block_wf _ _ _ _ _ _ _ _ _ Hwf E). intros [s X]; discriminate.
+      intro Hcc. apply (add_block_wf _ _ _ _ _ _ _ _ _ Hwf E); [intros [s X]; discriminate|intros _; exact Hcc].
+  Qed.
+
+  (** *** Header-first sync *)
+  Lemma invalid_header_rejected st hd :
+    hd_height hd <> 0 -> ~ header_ok bk_addr st hd ->
+    exists e, add_header bk_addr st hd = (st, Some e).
+  Proof.
+    intros Hh Hno. destruct (add_header bk_addr st hd) as [st' [e|]] eqn:E.
+    - exists e. rewrite (add_header_unchanged _ _ _ _ _ E). reflexivity.
+    - destruct (add_header_accepted _ _ _ _ E) as (_ & Hv & _).
+      exfalso; apply Hno. apply verify_header_sound; assumption.
+  Qed.
+
+  (** after the valid next header went through AddHeader, a defective block is still rejected
+      and the ledger (now containing that header in cache and index) is left exactly as it was *)
+  Lemma header_first_block_rejected st hv st1 b sroot ex :
+    wf st -> add_header bk_addr st hv = (st1, None) -> cur_height st < hd_height hv ->
+    header_defect st1 (b_hdr b) \/ state_defect b sroot ex ->
+    exists o, add_block mroot bk_addr io st1 b sroot ex = (st1, o) /\ o <> Added /\ ~ io_error o.
+  Proof.
+    intros Hwf Ha Hlt Hd.
+    pose proof (add_header_wf _ _ _ _ Hwf Ha Hlt) as Hwf1.
+    destruct (invalid_block_rejected st1 b sroot ex Hwf1 Hd) as [o (E & Hna & Hnio & _)].
+    exists o; auto.
   Qed.
 
   (** *** A header mutated after signing (signatures still those made for another hash) *)
